@@ -135,6 +135,7 @@ type worker struct {
 	bc   *env.Pair // B -> C: gives B a session for C
 	da   *env.Pair // D -> A: gives D a session for A
 	tier core.Tier
+	hop  *frame.Builder // a forwarding router's builder (link margins)
 }
 
 // unsealCopy parses a copy of data on B's builder and unseals with sess.
@@ -357,6 +358,50 @@ func (w *worker) runTuple(t tuple, exhaustiveBits bool) {
 		}
 	}
 	res.Case(tkey+"/appendix-edits", true)
+	// The appendix changed through the API, as a forwarding router does it (parsed off a link with the link
+	// margins, then SetAppendixData to sizes that stay in place or move the frame to a bigger buffer), and by
+	// the sender itself on its sealed frame (builder margins of this tuple).
+	for _, n := range []int{0, 1 + r.IntN(100), 450 + r.IntN(400), 1400 + r.IntN(500), 4900 + r.IntN(600), 9000 + r.IntN(1000)} {
+		newApx := core.RandBytes(r, n)
+		hop := w.hop
+		ps := hop.GetPooledSlice(12 + len(sealed) + 16)
+		if ps != nil {
+			copy(ps[12:], sealed)
+			if hf, err := hop.ParseFrame(ps[12:12+len(sealed)], ps, 12); err == nil {
+				if err := hf.SetAppendixData(newApx); err == nil {
+					d, _ := hf.FrameDataWithMargins(0, 0)
+					mut := append([]byte(nil), d...)
+					hf.ReturnToPool()
+					if !expectAccept(mut, "appendix-set-by-forwarder") {
+						return
+					}
+					res.Count("appendix_set_by_forwarder_accepted", 1)
+				} else {
+					hf.ReturnToPool()
+				}
+			} else {
+				hop.ReturnPooledSlice(ps)
+			}
+		}
+		if f, err := p.A.BuilderV.NewFrameV1(p.A.IdentityV.IP, p.B.IdentityV.IP, t.mt, sw, payload, apx); err == nil {
+			if err := f.Seal(p.AB); err == nil {
+				if err := f.SetAppendixData(newApx); err == nil {
+					d, _ := f.FrameDataWithMargins(0, 0)
+					mut := append([]byte(nil), d...)
+					f.ReturnToPool()
+					p.FreshReceiver()
+					if ok, got, rf, err := w.unsealCopy(p.B.BuilderV, mut, p.BA); !ok || !bytes.Equal(got, payload) {
+						res.Violate("hop-mutable-change-rejected:appendix-set-by-sender", fmt.Sprintf("%s: after SetAppendixData(%d bytes) on the sealed frame it no longer unseals to the payload: %v", t, n, err), wit(map[string]any{"new_appendix": n}))
+						return
+					} else {
+						rf.ReturnToPool()
+					}
+					continue
+				}
+			}
+			f.ReturnToPool()
+		}
+	}
 
 	// Truncation inside the protected part must be rejected.
 	for k := 0; k < 8; k++ {
@@ -446,7 +491,8 @@ func run(c *core.Ctx) {
 	}
 	parallel(W, func(wi int) {
 		r := core.RNG(fmt.Sprintf("c02/worker/%d", wi))
-		w := &worker{res: res, r: r, tier: c.Tier}
+		w := &worker{res: res, r: r, tier: c.Tier, hop: frame.NewFrameBuilder()}
+		w.hop.SetFrameMargins(12, 16)
 		idA, idB, idC, idD := env.NewIdentity(r, nil), env.NewIdentity(r, nil), env.NewIdentity(r, nil), env.NewIdentity(r, nil)
 		w.p = env.NewPairWith(idA, idB, "c02")
 		w.bc = env.NewPairWith(idB, idC, "c02") // B's view: session for C (with keys)
